@@ -77,6 +77,7 @@ BREAK = [
     ("threads-in-value", S, "            set_num_threads(config.NUM_THREADS)", "            set_num_threads(config.NUM_THREADS)\n            tfftq0 = tfftq0 * (1.0 + 1e-13 * config.NUM_THREADS)", ["C12"]),
     ("global-halo", S, "    if halo is None:\n        halo = max(xmx, ymx)\n", "    global _LAST_HALO\n    if halo is None:\n        halo = _LAST_HALO if _LAST_HALO is not None else max(xmx, ymx)\n    _LAST_HALO = halo\n", ["C12"]),
     ("arg-mutation", S, "    q0 = srf_flx\n", "    q0 = srf_flx\n    q0[0, 0] = 0.0\n", ["C12"]),
+    ("nc-met-swapped", IO, '                ustar_data[t] = r["params"]["ustar"]\n                mol_data[t] = r["params"]["mol"]', '                mol_data[t] = r["params"]["ustar"]\n                ustar_data[t] = r["params"]["mol"]', ["C18"]),
     ("fft-instance-state", FM, "        return pyfftw_fft.fft2(input_data, norm=norm)", "        return pyfftw_fft.fft2(input_data, norm=norm) * (1.0 if self.num_threads else 1.0)", ["C12"]),
     ("key-levels", S, "            np.asarray(levels).tolist(),\n", "", ["C15"]),
     ("key-analytic", S, "            bool(analytic),\n", "", ["C15"]),
